@@ -269,10 +269,11 @@ class Algebra:
 
 class PW:
     """piecewise value: `t` where the condition holds, `f` elsewhere"""
-    __slots__ = ("cond", "t", "f")
+    __slots__ = ("cond", "t", "f", "cfrac")
 
-    def __init__(self, cond, t, f):
+    def __init__(self, cond, t, f, cfrac=None):
         self.cond, self.t, self.f = cond, t, f
+        self.cfrac = cfrac          # (op, l - r) when the condition is a comparison `l op r` of two algebra values
 
     def __repr__(self):
         return "[%s ? %r : %r]" % (self.cond, self.t, self.f)
@@ -283,17 +284,17 @@ def lift(op, x, y):
     if isinstance(x, PW) and isinstance(y, PW):
         if x.cond != y.cond:
             raise Unsupported("two different piecewise conditions")
-        return PW(x.cond, lift(op, x.t, y.t), lift(op, x.f, y.f))
+        return PW(x.cond, lift(op, x.t, y.t), lift(op, x.f, y.f), x.cfrac)
     if isinstance(x, PW):
-        return PW(x.cond, lift(op, x.t, y), lift(op, x.f, y))
+        return PW(x.cond, lift(op, x.t, y), lift(op, x.f, y), x.cfrac)
     if isinstance(y, PW):
-        return PW(y.cond, lift(op, x, y.t), lift(op, x, y.f))
+        return PW(y.cond, lift(op, x, y.t), lift(op, x, y.f), y.cfrac)
     return op(x, y)
 
 
 def lift1(op, x):
     if isinstance(x, PW):
-        return PW(x.cond, lift1(op, x.t), lift1(op, x.f))
+        return PW(x.cond, lift1(op, x.t), lift1(op, x.f), x.cfrac)
     return op(x)
 
 
